@@ -1055,12 +1055,12 @@ func init() {
 	vs.Register(vs.Prop[c18Case]{
 		Name: "C18/pipelines", Rule: c18Rule,
 		Gen: c18Gen, Check: c18Check, Class: c18Class,
-		Quick: 600, Thorough: 8000, Timeout: 30 * time.Second,
+		Quick: 600, Thorough: 4000, Timeout: 30 * time.Second,
 		Known: known,
 	})
 	vs.Register(vs.Prop[c18Case]{
 		Name: "C18/race", Rule: "the same pipelines on the -race binary (fewer cases)",
 		Gen: c18Gen, Check: c18Check, Class: c18Class,
-		Quick: 120, Thorough: 1500, Timeout: 60 * time.Second, Race: true,
+		Quick: 120, Thorough: 800, Timeout: 60 * time.Second, Race: true,
 	})
 }
